@@ -202,10 +202,22 @@ class Lits(object):
     def stmt_list(self, l):
         """a Coq expression of type list stmt; a dynamic-constraint reference used as a statement expands in place (Rand/Dyn.v),
         a foreach over a list of objects is expanded by Rand/Unroll.v"""
-        if not any(s[0] in ("dyn", "dynidx", "foreach") for s in l):
+        if not any(s[0] in ("dyn", "dynidx", "foreach", "dist") for s in l):
             return clist([self.stmt(s) for s in l])
         parts, run, seen = [], [], set()
         for s in l:
+            if s[0] == "dist":
+                # the per-call rewrite of a dist constraint (Rand/Dist.v): membership in all entries + exclusion of zero weights
+                if run:
+                    parts.append(clist(run))
+                    run = []
+                ents = []
+                for it, w in s[2]:
+                    ent = "(%s, Some %s)" % (self.expr(["lit", it[0]]), self.expr(["lit", it[1]])) if isinstance(it, list) \
+                        else "(%s, None)" % self.expr(["lit", it])
+                    ents.append("(%s, %s)" % (ent, self.expr(w if isinstance(w, list) else ["lit", w])))
+                parts.append("(dist_stmts %s %s)" % (self.expr(s[1]), clist(ents)))
+                continue
             if s[0] == "foreach":
                 if run:
                     parts.append(clist(run))
@@ -385,6 +397,7 @@ class Gen(object):
 
     def __init__(self, rnd, small=True, tree=False, hist=False, ninst=1, soft_bias=False, free=False, rls=False):
         self.hooks = False        # pre_randomize callbacks that assign fields; classes deriving from a decorated base
+        self.dists = False        # a dist constraint on a random scalar of the root (top-level statement of a class block)
         self.olists = False       # lists of objects (elements are composites with fields, blocks and callbacks of their own)
         self.free = free          # free-standing vsc.randomize(...) / vsc.randomize_with(...) over some leaves
         self.rls = rls            # rangelist objects of the root, edited between calls
@@ -495,6 +508,8 @@ class Gen(object):
             for f in c["fields"]:
                 if f["kind"] == "olist" and rnd.random() < 0.7:
                     c["blocks"][0]["stmts"].append(self.foreach_objs(sc, c, f))
+            if self.dists and c is self.classes[0] and any(f["kind"] == "scalar" for f in c["fields"]):
+                c["blocks"][0]["stmts"].insert(rnd.randint(0, len(c["blocks"][0]["stmts"])), self.dist_stmt(c))
         self.rl_names = all_rl
 
     # ---- expressions
@@ -689,6 +704,30 @@ class Gen(object):
         sc["ops"] = ops
         sc["root_cls"] = root["name"]
         return sc
+
+    def dist_stmt(self, c):
+        """dist over a random scalar of the class: values and ranges inside and outside the type, zero weights, overlapping
+        entries, a weight held in a non-random field"""
+        rnd = self.rnd
+        cand = [f for f in c["fields"] if f["kind"] == "scalar" and f["rand"]] or [f for f in c["fields"] if f["kind"] == "scalar"]
+        f = rnd.choice(cand)
+        lo, hi = type_range(f["w"], f["sg"])
+        wfields = [x for x in c["fields"] if x["kind"] == "scalar" and not x["rand"] and not x["sg"]]
+        ents = []
+        for _ in range(rnd.randint(1, 4)):
+            a = rnd.randint(lo, hi)
+            it = [a, min(hi + 1, a + rnd.randint(0, 3))] if rnd.random() < 0.5 else a
+            r = rnd.random()
+            if r < 0.3:
+                w = 0
+            elif r < 0.4 and wfields:
+                w = ["f", [rnd.choice(wfields)["name"]]]
+            else:
+                w = rnd.choice([1, 1, 2, 5, 10])
+            ents.append([it, w])
+        if all(e[1] == 0 for e in ents) and rnd.random() < 0.8:
+            ents[0][1] = 3
+        return ["dist", ["f", [f["name"]]], ents]
 
     def foreach_objs(self, sc, c, lf):
         """with vsc.foreach(self.l, idx=True, it=True): relations over the element's fields, the index and the container's fields"""
